@@ -432,6 +432,28 @@ func c16Gen(t *rapid.T) C16Case {
 			c.Step = c16BadDuration(t, "step")
 		}
 	}
+	// The default step is a staircase in the length of the range: explicit start and end whose
+	// distance is a multiple of 250 s give or take a fraction of a second, no explicit step.
+	if !bad && rapid.IntRange(0, 9).Draw(t, "range-at-a-step-boundary") == 0 {
+		startNs := rapid.Int64Range(c16Lo, c16Hi-400000).Draw(t, "sb-start-sec")*1e9 + rapid.Int64Range(0, 999).Draw(t, "sb-start-ms")*1e6
+		k := rapid.Int64Range(1, 1200).Draw(t, "sb-k")
+		delta := rapid.SampledFrom([]int64{0, 1e6, -1e6, 200e6, -200e6, 999e6, -999e6, 500e6, -500e6}).Draw(t, "sb-delta")
+		endNs := startNs + k*250e9 + delta
+		spell := func(ns int64, label string) C16Flag {
+			f := C16Flag{Set: true, Valid: true, Value: ns}
+			switch rapid.IntRange(0, 2).Draw(t, label) {
+			case 0:
+				f.Text = strconv.FormatInt(ns, 10)
+			case 1:
+				f.Text = fmt.Sprintf("%d.%03d", ns/1e9, ns%1e9/1e6)
+			default:
+				f.Text = time.Unix(0, ns).UTC().Format(time.RFC3339Nano)
+			}
+			return f
+		}
+		c.Start, c.End, c.Step = spell(startNs, "sb-start-spelling"), spell(endNs, "sb-end-spelling"), C16Flag{}
+		c.Now = endNs + rapid.Int64Range(0, 3600).Draw(t, "sb-now")*1e9
+	}
 	return c
 }
 
